@@ -12,6 +12,7 @@ import Pff.Model.Rfigc
 import Pff.Model.Ecc
 import Pff.Model.Entry
 import Pff.Model.Run
+import Pff.Model.Csv
 /-!
 Line-protocol driver: one request per line on stdin, one canonical reply per line on stdout.
 Run with `lake env lean --run Pff/Driver.lean`. Byte strings are hex ("-" = empty); lists of
@@ -230,8 +231,33 @@ def showRun (r : Pff.Run.RunResult) : String :=
   let o := if sorted.isEmpty then "-" else ",".intercalate sorted
   s!"{Pff.Run.exitOf r} {c.1} {c.2.1} {c.2.2.1} {c.2.2.2.1} {c.2.2.2.2} {o}"
 
+/-! ### csv layer -/
+
+def parseCps (t : String) : Option (List Nat) :=
+  if t == "-" then some [] else (t.splitOn ".").mapM (·.toNat?)
+
+def showCps (l : List Nat) : String := if l.isEmpty then "-" else ".".intercalate (l.map toString)
+
+def parseCsvRows (t : String) : Option (List (List (List Nat))) :=
+  if t == "~" then some []
+  else (t.splitOn ";").mapM (fun r => if r == "=" then some [] else (r.splitOn ",").mapM parseCps)
+
+def showCsvRows (rows : List (List (List Nat))) : String :=
+  if rows.isEmpty then "~"
+  else ";".intercalate (rows.map (fun r => if r.isEmpty then "=" else ",".intercalate (r.map showCps)))
+
 def handle (toks : List String) : String :=
   match toks with
+  | ["csvw", rows] =>
+    match parseCsvRows rows with
+    | some rows => showCps (Pff.Csv.writeRows rows)
+    | none => "bad-op"
+  | ["csvr", text] =>
+    match parseCps text with
+    | some text => match Pff.Csv.readAll text with
+      | some rows => showCsvRows rows
+      | none => "error"
+    | none => "bad-op"
   | "eccrun" :: tool :: fast :: thr :: hl :: mbs :: hdr :: kmain :: kintra :: ign :: r1 :: r2 :: r3 :: stream :: rest =>
     -- rest = FS ; HT ; CT ; DT
     match thr.toNat?, hl.toNat?, mbs.toNat?, hdr.toNat?, kmain.toNat?, kintra.toNat?, parseFloatBits r1, parseFloatBits r2, parseFloatBits r3,
